@@ -135,7 +135,9 @@ Definition check_rec (r : rcase) : outcome :=
   {| o_corr := ops_match (rc_via r) (rc_found r) p (rc_ops r) && Bool.eqb (is_panic p) (rc_panic r) && rc_sigs_ok r &&
                (* the queue key the real filer used is the model's event_key *)
                (negb (rc_real r) || String.eqb (rc_key r) (event_key (rc_ev r)));
-     o_prop := rec_prop r;
+     (* ... and every applied change carries the event's signatures on (and, towards a filer, the
+        replicated mark): the next filer's echo filter depends on it *)
+     o_prop := rec_prop r && rc_sigs_ok r;
      o_trig := rec_trig r;
      o_nontrivial := match rc_ops r with [] => false | _ => true end |}.
 
